@@ -61,7 +61,8 @@ def mkCfg (d : DSt) (nsubs : Nat) (rows : List BehRow) : Cfg :=
     maxRetries := Nuts.Facts.C14.maxRetries
     failedThreshold := Nuts.Facts.C14.retriesFailedThreshold
     skipPresent := Nuts.Facts.C14.writePayloadSkipsPresent
-    writeBackSkipsGone := Nuts.Facts.C14.writeBackSkipsGone }
+    writeBackSkipsGone := Nuts.Facts.C14.writeBackSkipsGone
+    storageFaultEndsLoop := Nuts.Facts.C14.storageFaultEndsLoop }
 
 def showEntry : Entry → Option String
   | .call s r t ret o => some s!"{s}.{r}:{showType t}:{ret}:{showOutcome o}"
